@@ -201,7 +201,7 @@ func newBedOnce(c *Ctx, name string, o BedOpts) (*Bed, error) {
 		case "udp":
 			s, err = listenBoth(tag)
 		case "udponly":
-			err = s.ListenUDP("127.0.0.1:0")
+			err = s.ListenUDPRefuseTCP() // the TCP twin of the port is held (bound, not listening) for the life of the bed
 		case "tcp":
 			err = s.ListenTCP("127.0.0.1:0")
 		case "tls":
